@@ -182,10 +182,11 @@ def make_kwargs(rng, ins, outs, known_flags=None, extra_prob=0.3):
             base, idx = n.split(".")
             groups.setdefault(base, {})[int(idx)] = axes[n]
     done = set()
+    anon_bases = {nm for b, e in ells.items() if e.anon for nm in ell_names(e)}
     for n in sorted(need):
         if "." in n:
             base = n.split(".")[0]
-            if base in done or base in kw:
+            if base in done or base in kw or base in anon_bases:
                 continue
             done.add(base)
             vals = [groups[base][i] for i in range(len(groups[base]))]
